@@ -503,24 +503,31 @@ def sciDigits (num den : Nat) (p : Nat) : Nat × Int :=
   let z := rhe n' d'
   if z = pow10 p then (pow10 (p - 1), x + 1) else (z, x)
 
+/-- the scale `cif_value_autoinit_numb` chooses for a non-zero su: format the su with as many significant digits as the
+    rule has (`sprintf("%.*e")`), take the scale of its last digit, and one less if the digits exceed the rule -/
+def autoScale (su : Bin) (suRule : Nat) : Int :=
+  -- (int) log10(su_rule + 0.5) + 1
+  if (sciDigits (ratOfBin su.m su.e).1 (ratOfBin su.m su.e).2 (decDigits suRule).length).1 > suRule then
+    -- reduce the scale by 1 if the su needs to be rounded to fewer digits
+    (-(sciDigits (ratOfBin su.m su.e).1 (ratOfBin su.m su.e).2 (decDigits suRule).length).2
+        + ((decDigits suRule).length : Nat) - 1) - 1
+  else
+    -(sciDigits (ratOfBin su.m su.e).1 (ratOfBin su.m su.e).2 (decDigits suRule).length).2
+        + ((decDigits suRule).length : Nat) - 1
+
+/-- the scale chosen for an exact number (`su == 0`) -/
+def exactScale (val : Bin) (msp : Int) : Int :=
+  if (fracBits val).2 ≤ ((fracBits val).1 : Nat) then ((fracBits val).1 : Nat) - (fracBits val).2
+  else if msp < (DBL_DIG : Nat) then 0 else ((DBL_DIG : Nat) - 1) - msp
+
 /-- `cif_value_autoinit_numb(numb, val, su, su_rule)` -/
 def autoinitNumb (val su : Bin) (suRule : Nat) (msp : Int) : Except Code V :=
   if (su.neg ∧ su.m ≠ 0) ∨ suRule < 2 then .error CIF_ARGUMENT_ERROR
   else if su.m = 0 then
     -- an exact number
-    let (bitCount, exponent) := fracBits val
-    let scale : Int :=
-      if exponent ≤ (bitCount : Nat) then (bitCount : Nat) - exponent
-      else if msp < (DBL_DIG : Nat) then 0 else ((DBL_DIG : Nat) - 1) - msp
-    initNumb val su scale DEFAULT_MAX_LEAD_ZEROES msp
+    initNumb val su (exactScale val msp) DEFAULT_MAX_LEAD_ZEROES msp
   else
-    let ruleDigits := (decDigits suRule).length               -- (int) log10(su_rule + 0.5) + 1
-    let (sn, sd) := ratOfBin su.m su.e
-    let (suDigits, x) := sciDigits sn sd ruleDigits
-    let scale0 : Int := -x + (ruleDigits : Nat) - 1
-    -- reduce the scale by 1 if the su needs to be rounded to fewer digits
-    let scale := if suDigits > suRule then scale0 - 1 else scale0
-    initNumb val su scale DEFAULT_MAX_LEAD_ZEROES msp
+    initNumb val su (autoScale su suRule) DEFAULT_MAX_LEAD_ZEROES msp
 
 /-! ### cif_value_get_number / cif_value_get_su -/
 
